@@ -116,6 +116,18 @@ def run(model: Model, rep: Report) -> None:
     s5 = "".join(unparse(gd.node).split())
     r4.check("obj=self.lookup_name('Dests',name)" in s5 and "exceptKeyError:" in s5 and "raisePDFDestinationNotFound(name)" in s5 and "d0=dict_value(self.catalog['Dests'])" in s5, site(gd), gd.qualname, "destinations: the Dests name tree first, then the PDF 1.1 /Dests dictionary, else PDFDestinationNotFound", why="changed")
     _numerals(model, rep)
+    # ---------------------------------------------------------------- R6
+    r6 = rep.rule("C17-R6", "EFFECTS", "every call of get_page_labels builds a new label generator from the catalog; no iterator is kept on the document", 2)
+    from ..cfg import build_cfg as _bcfg
+    from ..util import self_fields_written
+
+    gl = model.func(D + "PDFDocument.get_page_labels")
+    w = sorted(self_fields_written(gl))
+    r6.check(not w, site(gl), gl.qualname, "get_page_labels writes no field of the document", why=f"writes {w}: a generator stored on the document is handed out again half-consumed, so a second pass over the pages starts its labels where the first pass stopped")
+    gg = _bcfg(gl.node, exc_edges=False)
+    wit = gg.all_path_pass(gg.entry, lambda n: n.ast is not None and n.kind == "stmt" and any(isinstance(c, ast.Call) and (dotted(c.func) or "") == "PageLabels" for c in ast.walk(n.ast)))
+    rets = [n for n in walk_no_nested(gl.node) if isinstance(n, ast.Return) and n.value is not None]
+    r6.check(wit is None and len(rets) == 1 and "".join(unparse(rets[0].value).split()) == "page_labels.labels", site(gl), gl.qualname, "every returning path constructs PageLabels(catalog['PageLabels']) and returns its fresh .labels generator", why="a path returns without building the labels anew")
 
 
 def _numerals(model: Model, rep: Report) -> None:
